@@ -917,7 +917,7 @@ def execute(ctx, b, sched_file, name, procs=8, timeout=300, xpark=True):
                 reached[k] = reached.get(k, 0) + v
         except Exception:
             pass
-    return dict(runs=runs, chk=chk, failures=rr["failures"], reached=reached, schedules=rr["schedules"], abandoned=rr["abandoned"])
+    return dict(runs=runs, chk=chk, failures=rr["failures"], reached=reached, schedules=rr["schedules"], abandoned=rr["abandoned"], dirs=list(rr["dirs"]))
 
 
 def judge(prop, runs, chk, failures, compare=True):
@@ -971,6 +971,7 @@ def run_property(ctx, prop, scenarios=None, tier=None, procs=8):
     scs = scenarios if scenarios is not None else load_scenarios(prop)
     t0 = time.time()
     runs, chk, failures, reached = {}, {}, [], {}
+    cq_dirs = []     # directories whose observed.txt / verdict.txt lib/coqeval.py samples
     # corpus first
     corpus = [c for c in corpus_schedules() if not c.get("props") or prop in c["props"]]
     if corpus:
@@ -978,6 +979,7 @@ def run_property(ctx, prop, scenarios=None, tier=None, procs=8):
         cf.write_text("".join(corpus_text(c) for c in corpus))
         e = execute(ctx, b, cf, "corpus-%s" % prop, procs=procs, xpark=False)
         runs.update(e["runs"]); chk.update(e["chk"]); failures += e["failures"]
+        cq_dirs += e["dirs"]
         for k, v in e["reached"].items():
             reached[k] = reached.get(k, 0) + v
     sf, gstats, glog = gen_schedules(ctx, b, scs, tier, ctx.seed, name="gen-%s" % prop)
@@ -986,6 +988,7 @@ def run_property(ctx, prop, scenarios=None, tier=None, procs=8):
     # comparison run: window yield points (W) and shape sentinels (X) transparent; compared with the model after every item
     e = execute(ctx, b, sf, "run-%s" % prop, procs=procs, timeout=300 if tier == "quick" else 3000, xpark=False)
     runs.update(e["runs"]); chk.update(e["chk"]); failures += e["failures"]
+    cq_dirs += e["dirs"]
     for k, v in e["reached"].items():
         reached[k] = reached.get(k, 0) + v
     n_compare = len(runs)
@@ -1000,6 +1003,7 @@ def run_property(ctx, prop, scenarios=None, tier=None, procs=8):
         xf.write_text("".join(exhibit_text(x) for x in xl))
         e2 = execute(ctx, b, xf, "xrun-%s" % prop, procs=procs, timeout=300 if tier == "quick" else 3000, xpark="w")
         xruns, xchk, xfail = e2["runs"], e2["chk"], e2["failures"]
+        cq_dirs += e2["dirs"]
         meta = {x["id"]: x for x in xl}
         for sid, r in xruns.items():
             m_ = meta.get(sid, {})
@@ -1111,6 +1115,12 @@ def run_property(ctx, prop, scenarios=None, tier=None, procs=8):
     if xs and not any(isinstance(x, dict) and "exhibit_schedule" in x for x in ctx.coverage["samples"]):
         r_ = xruns[xs[len(xs) // 2]]
         ctx.coverage["samples"].append({"exhibit_schedule": r_.sid, "exhibit_of": r_.exhibit, "items": [" ".join(f) for _k, f in r_.items][:60]})
+    # extraction + driver vs the Gallina definitions: a sample of the checked schedules is evaluated inside Coq (lib/coqeval.py)
+    try:
+        from . import coqeval
+        coqeval.hook(ctx, "T2-sched", coqeval.lk_sample, cq_dirs)
+    except Exception as ex:  # noqa
+        ctx.note("coq/driver tie T2-sched not run: %r" % (ex,))
     return dict(ok_build=True, runs=runs, chk=chk, judged=j, failures=failures, stats=gstats, reached=reached, instr=ins)
 
 
